@@ -568,7 +568,7 @@ PROPS["C10"] = {
     "level_text": "Proof: for EVERY registry, format, value and byte string (no bound): dec_enc (a well-typed value's encoding, followed "
                   "by anything, decodes to that value and leaves exactly the rest; fuel = nesting depth suffices), enc_dec (whatever the "
                   "schema-driven decoder accepts is the canonical encoding of a well-typed value: re-encoding reproduces the consumed "
-                  "bytes), enc_prefix_free / enc_injective, dec_fuel_irrelevant, dec_total_bounded / str_len_checked / seq_len_bounded, "
+                  "bytes), dec_iff (the two combined: accepted as (v, rest) iff v well-typed and bytes = enc v ++ rest), enc_prefix_free / enc_injective, dec_fuel_irrelevant, dec_total_bounded / str_len_checked / seq_len_bounded, "
                   "C10_oracle_sound (the specification oracle accepts every observation of the model). All formats are covered (unit, "
                   "bool, i8..u128, f32/f64, char, str with UTF-8 validity, bytes, option, seq, map, tuple, array) and all container "
                   "kinds (unit/newtype/tuple/named struct, enum with unit/newtype/tuple/struct variants), including recursive registries. "
@@ -870,4 +870,4 @@ ENGINE_TEXT = {
 HOOK_COMMITS = ["3b3ccf0", "fd94595", "1055c0e", "261bd7a"]
 
 # Only these are listed in MANIFEST.json as claimed (the lead adds an id here once its check has been reviewed and passes).
-CLAIMED = ["C01", "C02", "C03", "C04", "C05", "C06", "C07", "C09", "C12", "C13", "C16", "C17", "C19"]
+CLAIMED = ["C01", "C02", "C03", "C04", "C05", "C06", "C07", "C09", "C10", "C12", "C13", "C16", "C17", "C19"]
